@@ -78,16 +78,16 @@ type FoundViolation struct {
 
 // WorkerResult is what one worker process reports.
 type WorkerResult struct {
-	Runs        int               `json:"runs"`
-	Nontrivial  int               `json:"nontrivial"`
-	Skipped     int               `json:"skipped_budget"`
-	Stats       *Stats            `json:"stats"`
-	Violations  []*FoundViolation `json:"violations"`
-	HarnessErr  string            `json:"harness_err,omitempty"`
-	WallS       float64           `json:"wall_s"`
-	RunHashes   map[string]uint64 `json:"run_hashes"` // "<batch>/<i>" -> event-log hash (first few runs)
-	PerBatch    map[string]int    `json:"per_batch"`
-	Samples     []json.RawMessage `json:"samples"`
+	Runs       int               `json:"runs"`
+	Nontrivial int               `json:"nontrivial"`
+	Skipped    int               `json:"skipped_budget"`
+	Stats      *Stats            `json:"stats"`
+	Violations []*FoundViolation `json:"violations"`
+	HarnessErr string            `json:"harness_err,omitempty"`
+	WallS      float64           `json:"wall_s"`
+	RunHashes  map[string]uint64 `json:"run_hashes"` // "<batch>/<i>" -> event-log hash (first few runs)
+	PerBatch   map[string]int    `json:"per_batch"`
+	Samples    []json.RawMessage `json:"samples"`
 }
 
 // RunSeed derives the seed of run i of a batch.
@@ -160,6 +160,10 @@ func Worker(p *Property, tier Tier, seed uint64, w, W int, hashFirst int, maxInd
 			}
 		}
 	}()
+	totalWeight, cumWeight := 0, 0
+	for _, b := range p.Batches {
+		totalWeight += b.Weight
+	}
 	for _, b := range p.Batches {
 		n := b.Quick
 		if tier == Thorough {
@@ -168,9 +172,18 @@ func Worker(p *Property, tier Tier, seed uint64, w, W int, hashFirst int, maxInd
 		if maxIndex > 0 && n > maxIndex {
 			n = maxIndex
 		}
+		if only := os.Getenv("VERIF_ONLY_BATCH"); only != "" && only != b.Name {
+			continue // development aid: run a single batch of the property
+		}
+		// Deadline of this batch: the whole budget, or its cumulative share when weights are given.
+		deadline := budget
+		if totalWeight > 0 {
+			cumWeight += b.Weight
+			deadline = budget * time.Duration(cumWeight) / time.Duration(totalWeight)
+		}
 		nv := 0
 		for i := w; i < n; i += W {
-			if time.Since(start) > budget {
+			if time.Since(start) > deadline {
 				res.Skipped += (n - i + W - 1) / W
 				break
 			}
@@ -367,12 +380,12 @@ func MatchKnown(fs []Finding, v *Violation) *Finding {
 
 // CheckConfig configures RunCheck.
 type CheckConfig struct {
-	Tier      Tier
-	Seed      uint64
-	Workers   int
-	VerifDir  string
-	Self      string // path of this executable
-	RepoDir   string
+	Tier     Tier
+	Seed     uint64
+	Workers  int
+	VerifDir string
+	Self     string // path of this executable
+	RepoDir  string
 }
 
 // RunCheck runs a property check in worker processes, merges, minimises, writes evidence
@@ -605,23 +618,23 @@ func WriteEvidence(p *Property, cfg CheckConfig, r *WorkerResult, wall float64, 
 		"distinct_nontrivial": r.Stats.SetSize("nontrivial_scenarios"),
 		"rule": "Scenarios are generated from VERIF_SEED via splitmix64 (seed_i = H(seed, property/batch, i)); distinct = distinct hash of (batch, knobs, ops); " +
 			"non-trivial per batch: " + strings.Join(rules, " "),
-		"samples":                   samples,
-		"runs_per_batch":            r.PerBatch,
-		"runs_skipped_for_budget":   r.Skipped,
-		"runs_per_hour":             float64(r.Runs) / wall * 3600,
-		"simulated_steps":           r.Stats.SimSteps,
-		"simulated_time_s":          r.Stats.SimTime,
-		"faults_fired":              faults,
-		"probes":                    probes,
-		"counters":                  other,
-		"distinct_sets":             sets,
+		"samples":                    samples,
+		"runs_per_batch":             r.PerBatch,
+		"runs_skipped_for_budget":    r.Skipped,
+		"runs_per_hour":              float64(r.Runs) / wall * 3600,
+		"simulated_steps":            r.Stats.SimSteps,
+		"simulated_time_s":           r.Stats.SimTime,
+		"faults_fired":               faults,
+		"probes":                     probes,
+		"counters":                   other,
+		"distinct_sets":              sets,
 		"determinism_selfcheck_runs": detN,
-		"components_real":           p.Real,
-		"components_stub":           p.Stub,
-		"known_findings_reported":   known,
-		"workers":                   cfg.Workers,
-		"gomaxprocs":                runtime.GOMAXPROCS(0),
-		"repo":                      cfg.RepoDir,
+		"components_real":            p.Real,
+		"components_stub":            p.Stub,
+		"known_findings_reported":    known,
+		"workers":                    cfg.Workers,
+		"gomaxprocs":                 runtime.GOMAXPROCS(0),
+		"repo":                       cfg.RepoDir,
 	}
 	ev := map[string]interface{}{
 		"property_id": p.ID,
